@@ -204,11 +204,18 @@ fn build_reply(out: &mut Out, rng: &mut Rng, st: &mut Sync, thorough: bool) -> (
         last = Some(idx);
     }
     // previously generated but undelivered blocks (orphans if their parents are missing)
-    if rng.chance(1, 3) && !st.undelivered.is_empty() {
-        // half of the time a block whose parent has only been announced (or not even that) so far
+    if rng.chance(1, 2) && !st.undelivered.is_empty() {
+        // a block whose parent has only been announced (or not even that) so far, or - as a real
+        // block source would - an announced block whose parent is in the tree by now
         let orphans: Vec<usize> = st.undelivered.iter().cloned()
             .filter(|i| st.case.world.nodes[*i].parent.map(|p| st.undelivered.contains(&p)).unwrap_or(false)).collect();
-        let k = if !orphans.is_empty() && rng.chance(1, 2) { *rng.pick(&orphans) } else { *rng.pick(&st.undelivered) };
+        let ready: Vec<usize> = st.undelivered.iter().cloned()
+            .filter(|i| st.case.world.nodes[*i].parent.map(|p| st.case.alive.contains(&p)).unwrap_or(false)).collect();
+        let k = match rng.below(3) {
+            0 if !orphans.is_empty() => *rng.pick(&orphans),
+            1 | 2 if !ready.is_empty() => *rng.pick(&ready),
+            _ => *rng.pick(&st.undelivered),
+        };
         blobs.push(block_bytes(&st.case.world.nodes[k].block));
         out.count("bad:redelivery-or-orphan");
     }
@@ -280,7 +287,15 @@ fn build_reply(out: &mut Out, rng: &mut Rng, st: &mut Sync, thorough: bool) -> (
     // announced headers: of fresh (undelivered) blocks built on the newest block, sometimes bad
     let mut next: Vec<Vec<u8>> = vec![];
     if rng.chance(1, 2) {
-        let mut parent = last.unwrap_or_else(|| pick_parent(rng, &st.case));
+        // announced chains start at the newest block, or at a block that already has a child (a fork
+        // announced ahead of its blocks), or anywhere
+        let forkable: Vec<usize> = st.case.alive.iter().cloned()
+            .filter(|i| st.case.alive.iter().any(|j| st.case.world.nodes[*j].parent == Some(*i))).collect();
+        let mut parent = match last {
+            Some(l) if rng.chance(2, 3) => l,
+            _ if !forkable.is_empty() && rng.chance(1, 2) => *rng.pick(&forkable),
+            _ => pick_parent(rng, &st.case),
+        };
         for _ in 0..rng.range(1, 4) {
             let mo = mined_opts(rng, thorough);
         let idx = st.case.world.new_block(rng, parent, &mo);
